@@ -632,6 +632,12 @@ int vs_fcntl(int fd, int cmd, ...)
   }
   int ret = (cmd == F_GETFD || cmd == F_GETFL) ? fcntl(fd, cmd)
                                                : fcntl(fd, cmd, arg);
+  if ((cmd == F_DUPFD || cmd == F_DUPFD_CLOEXEC) && ret >= 0 && ret < FD_MAX &&
+      g_side == VS_PARENT) {
+    // a descriptor created by the library (duplicate of one of its own)
+    g_fd[ret] = 1;
+    g_fd_ever[ret] = 1;
+  }
   if (probing) {
     vs_sh->child_last_probe = ret >= 0 ? fd : -1;
   }
